@@ -5,6 +5,7 @@ C18 - runs are reproducible and side-effect free whatever the threading.   DESIG
  (c) real builds: NUMBA_NUM_THREADS 1/2/16 and PANDORA_NUMBA_PARALLEL False, separate interpreters (sampled, not steered)
 """
 import copy
+import hashlib
 import json
 import os
 import subprocess
@@ -82,6 +83,69 @@ class C18:
             prange_sim.transform(d)
 
     # -----------------------------------------------------------------------------------------------------------
+    @staticmethod
+    def twin_tweaks(rnd, prog, wb):
+        """(step index, parameter, other value) changes that give a near-twin of a program: same steps, one parameter changed"""
+        tweaks = []
+        for si, (n_, p_) in enumerate(prog):
+            if p_.get("filter_method") == "bilateral":
+                same_width = {0.4: 0.5, 0.7: 0.8, 1.0: 1.3, 1.3: 1.0, 2.0: 2.2, 3.0: 3.2}
+                tweaks.append((si, "sigma_space", same_width.get(p_.get("sigma_space", 6.0), 6.2)))
+                tweaks.append((si, "sigma_color", p_.get("sigma_color", 2.0) + 1.5))
+            elif p_.get("filter_method") == "median":
+                tweaks.append((si, "filter_size", 5 if p_.get("filter_size", 3) != 5 else 3))
+            elif "matching_cost_method" in p_ and p_["matching_cost_method"] != "census":
+                tweaks.append((si, "window_size", 3 if p_.get("window_size", 5) != 3 else 5))
+                if p_.get("band"):
+                    from sim.world import BAND_NAMES
+
+                    others = [b_ for b_ in (wb.get("band_names") or BAND_NAMES)[: wb["bands"]] if b_ != p_["band"]]
+                    if others:
+                        tweaks.append((si, "band", rnd.choice(others)))
+                        tweaks.append((si, "band", rnd.choice(others)))
+            elif p_.get("confidence_method") in ("ambiguity", "risk"):
+                tweaks.append((si, "eta_max", 0.5 if p_.get("eta_max", 0.7) != 0.5 else 0.33))
+            elif "aggregation_method" in p_:
+                tweaks.append((si, "cbca_distance", 2 if p_.get("cbca_distance", 5) != 2 else 3))
+            elif "validation_method" in p_:
+                tweaks.append((si, "cross_checking_threshold", 2.5 if p_.get("cross_checking_threshold", 1.0) != 2.5 else 0))
+            elif p_.get("refinement_method"):
+                tweaks.append((si, "refinement_method", "vfit" if p_["refinement_method"] == "quadratic" else "quadratic"))
+        return tweaks
+
+    def gen_twin_pair(self, rnd):
+        """
+        The shortest histories in which a leftover shared between machine objects shows: near-twins of a program (one
+        parameter changed, chosen so that anything derived from it - a window width, a sample count - stays the same) run
+        first, each on a machine of its own, then the program itself on a fresh machine; every run is compared with the
+        solo run of its program in a fork of the pristine process.  (Decided from the scenario index, so that the random
+        stream of the other histories is unchanged.)
+        """
+        w = pipeline.gen_world_for(rnd, HPROFILE)
+        for _ in range(6):
+            p = pipeline.gen_program(rnd, w, HPROFILE)
+            tweaks = self.twin_tweaks(rnd, p, w)
+            if tweaks:
+                break
+        progs = [{"world": 0, "program": p}]
+        rnd.shuffle(tweaks)
+        seen = set()
+        for si, k_, v_ in tweaks:
+            if (si, k_) in seen or len(progs) >= 3:
+                continue
+            seen.add((si, k_))
+            t = copy.deepcopy(p)
+            t[si][1][k_] = v_
+            progs.append({"world": 0, "program": t})
+        ops = [{"op": "run", "m": i, "p": i} for i in range(1, len(progs))]
+        ops += [{"op": "run", "m": 0, "p": 0}, {"op": "run", "m": 0, "p": 0}]
+        if len(progs) > 1:
+            ops.append({"op": "run", "m": len(progs), "p": 1})
+        bad = {"world": 0, "program": [["disparity", {"disparity_method": "wta"}],
+                                        ["matching_cost", {"matching_cost_method": "sad"}]]}
+        return {"harness": "history", "worlds": [w], "programs": progs, "bad": bad, "ops": ops,
+                "machines": len(progs) + 1, "twin_pair": True}
+
     def generate(self, rnd, index, tier):
         if index == 0:
             n = 24 if tier == "quick" else 300
@@ -106,6 +170,8 @@ class C18:
                     "threads": rnd.choice([2, 2, 3, 4]), "assignment": rnd.choice(["static", "static", "random"]),
                     "schedules": [[rnd.choice(STRATEGIES), rnd.getrandbits(32)] for _ in range(6 if tier == "quick" else 12)]}
         # histories
+        if hashlib.sha256(f"twin-pair:{index}".encode()).digest()[0] < 56:
+            return self.gen_twin_pair(rnd)
         nw, npg, nm = rnd.randint(1, 2), rnd.randint(1, 3), rnd.randint(1, 4)
         worlds, progs = [], []
         for _ in range(nw):
@@ -135,32 +201,7 @@ class C18:
             # a near-twin of program 0 (same steps, one parameter changed) on the same world: what a cache keyed on too
             # little, or any other leftover shared between machine objects, would confuse
             twin = copy.deepcopy(progs[0])
-            tweaks = []
-            for si, (n_, p_) in enumerate(twin["program"]):
-                if p_.get("filter_method") == "bilateral":
-                    same_width = {0.4: 0.5, 0.7: 0.8, 1.0: 1.3, 1.3: 1.0, 2.0: 2.2, 3.0: 3.2}
-                    tweaks.append((si, "sigma_space", same_width.get(p_.get("sigma_space", 6.0), 6.2)))
-                    tweaks.append((si, "sigma_color", p_.get("sigma_color", 2.0) + 1.5))
-                elif p_.get("filter_method") == "median":
-                    tweaks.append((si, "filter_size", 5 if p_.get("filter_size", 3) != 5 else 3))
-                elif "matching_cost_method" in p_ and p_["matching_cost_method"] != "census":
-                    tweaks.append((si, "window_size", 3 if p_.get("window_size", 5) != 3 else 5))
-                    if p_.get("band"):
-                        from sim.world import BAND_NAMES
-
-                        wb = worlds[twin["world"]]
-                        others = [b_ for b_ in (wb.get("band_names") or BAND_NAMES)[: wb["bands"]] if b_ != p_["band"]]
-                        if others:
-                            tweaks.append((si, "band", rnd.choice(others)))
-                            tweaks.append((si, "band", rnd.choice(others)))
-                elif p_.get("confidence_method") in ("ambiguity", "risk"):
-                    tweaks.append((si, "eta_max", 0.5 if p_.get("eta_max", 0.7) != 0.5 else 0.33))
-                elif "aggregation_method" in p_:
-                    tweaks.append((si, "cbca_distance", 2 if p_.get("cbca_distance", 5) != 2 else 3))
-                elif "validation_method" in p_:
-                    tweaks.append((si, "cross_checking_threshold", 2.5 if p_.get("cross_checking_threshold", 1.0) != 2.5 else 0))
-                elif p_.get("refinement_method"):
-                    tweaks.append((si, "refinement_method", "vfit" if p_["refinement_method"] == "quadratic" else "quadratic"))
+            tweaks = self.twin_tweaks(rnd, twin["program"], worlds[twin["world"]])
             if tweaks:
                 si, k_, v_ = rnd.choice(tweaks)
                 twin["program"][si][1][k_] = v_
